@@ -26,7 +26,7 @@ MANIFEST = {
 
 def check(ctx, prop_dir="C01", props="C01/Properties.v", kinds=("mailbox:overlap",), design="DESIGN.md §6 C01"):
     ctx.trusted += TRUSTED
-    bad = vlib.forbidden_scan()
+    bad = vlib.forbidden_scan(sorted(set(["Lib", "C01", prop_dir])))
     if bad:
         ctx.proof_errors.append("forbidden constructs: %s" % bad[:5])
     if vlib.coq_make(ctx, ["Lib", "C01"] + ([prop_dir] if prop_dir != "C01" else [])):
